@@ -60,4 +60,14 @@ PROPS["C13"] = dict(driver="bpmsim", budget=dict(quick=30, thorough=600), chunk=
     technique="seeded new/fetch/modify/unpin/flush/deallocate sequences on the real BufferPoolManager (file-backed and in-memory disk managers, pools of 1-8 frames) against a pageID->bytes model",
     assumptions=["operations the pool must refuse (all frames pinned) are generated only when the model says a frame is available, so a nil page or a 'Victim' panic means a lost frame",
                  "a user unpins its own pins before deallocating a page"])
+CON_RULE = ("one evaluation = one simulated concurrent execution: client tasks, the request manager loop, one worker task per request and "
+            "(in half of the runs) the checkpoint and statistics threads all run under the seeded scheduler (policies: uniform random, "
+            "sticky, PCT with 1-4 change points, round-robin), with the virtual clock advanced at decision points so that the 30 s / 10 s "
+            "timers fire inside foreground operations; blocking primitives, channels, go statements and timers of the engine are the "
+            "substituted ones. distinct = distinct (workload, schedule trace) pairs; non-trivial = at least one preemption happened")
+PROPS["C12"] = dict(driver="consim", budget=dict(quick=60, thorough=1500), chunk=40, rule=CON_RULE,
+    technique="deterministic simulation under a seeded scheduler; histories stamped with the scheduler's global step counter and checked for linearizability with porcupine (no-row-change workload) and for exactly-once effects (insert/delete/update workload); exact deadlock detection and a step budget for progress",
+    assumptions=["preemption happens at synchronisation, channel, disk and yield points, not between arbitrary instructions",
+                 "progress: a run must finish within 3,000,000 scheduler steps and 6 simulated hours; deadlock is detected exactly (no runnable task, no pending timer)",
+                 "porcupine results of Unknown (20 s timeout) are counted, never reported"])
 
